@@ -158,7 +158,12 @@ impl Op {
     }
 
     fn handle_op_inversion(self) -> Result<Op, Error> {
-        let inverted = self.params.boolean("inv");
+        // The inv modifier is valid for all operators, also for the (typically
+        // one-way) operators not mentioning it in their gamut: these must
+        // refuse inversion, rather than silently ignore it
+        let given = self.params.given.get("inv");
+        let inverted = self.params.boolean("inv")
+            || given.is_some_and(|v| v.is_empty() || v.to_lowercase() == "true");
         self.handle_inversion(inverted)
     }
 
